@@ -206,6 +206,14 @@ def programs(draw, max_sub=6, max_rxn=6):
             rx["par"] = [_rate_constant(draw, mode, -3, 12), _tnum(draw, mode, 100, 9000)]
         else:                      # c0 = kB/h exp(dS/R), dH/R [K], conc0
             rx["par"] = [_rate_constant(draw, mode, -3, 12), _tnum(draw, mode, 100, 9000), _number(draw, mode, -1, 1)]
+    # one rate-expression *object* serving as `param` of several reactions (same constant, different stoichiometries):
+    # rx["share"] = index of the earlier reaction (the group's leader) whose kind, parameters and object it takes over
+    for j in range(1, nr):
+        if draw(st.integers(0, 4)) == 4:
+            lead = leader(rxns, draw(st.integers(0, j - 1)))
+            rxns[j]["share"] = lead
+            rxns[j]["kind"] = rxns[lead]["kind"]
+            rxns[j]["par"] = list(rxns[lead]["par"])
     conc = {k: _number(draw, mode, -3, 0, allow_zero=True) for k in keys}
     t = _number(draw, mode, -3, -1, allow_zero=True)
     case = {
@@ -223,8 +231,34 @@ def programs(draw, max_sub=6, max_rxn=6):
         "pexpr_coef": [_number(draw, "int" if mode == "float" else mode), _number(draw, "int" if mode == "float" else mode)],
         # the optional symbol arguments of the explicit builder (_create_odesys)
         "sym": _symbol_arguments(draw, keys),
+        # Substance.name of the objects stored under the substance keys
+        "subnames": _substance_names(draw, keys),
     }
     return case
+
+
+def leader(rxns, j):
+    """Index of the reaction whose rate-expression object reaction j uses (j itself unless it shares)."""
+    return rxns[j].get("share", j)
+
+
+def _substance_names(draw, keys):
+    """{"style": ..., "names": {key: name | None}} - only the substances whose Substance.name differs from their key.
+
+    same | descriptive (every name differs) | partial (some differ) | none (some substances created without a name) |
+    shifted (every substance carries the *key of the next one* as its name: the names are a permutation of the keys)"""
+    style = draw(st.sampled_from(["same"] * 8 + ["descriptive", "descriptive", "partial", "partial", "none", "shifted"]))
+    names = {}
+    if style == "descriptive":
+        names = {k: "species %d (%s)" % (i, k) for i, k in enumerate(keys)}
+    elif style in ("partial", "none"):
+        chosen = draw(st.sets(st.sampled_from(keys), min_size=1))
+        names = {k: (None if style == "none" else "alias_" + k) for k in sorted(chosen)}
+    elif style == "shifted" and len(keys) > 1:
+        names = {k: keys[(i + 1) % len(keys)] for i, k in enumerate(keys)}
+    if not names:
+        style = "same"
+    return {"style": style, "names": names}
 
 
 SYMBOL_ASSUMPTIONS = [{}, {"real": True}, {"nonnegative": True}, {"positive": True}]
@@ -488,10 +522,27 @@ SYNTHETIC_COUNTS_DYADIC = [0, 1, 2, 3, 1, 2, 0.5, 1.5, 2.25, 0.25, 0.125, 2.5, 0
 SYNTHETIC_CHARGES_DYADIC = [0, 0, 0.5, -0.5, 1, 0.25, -1.5, -1, 0.125, 2.5]
 
 
-def _draw_substances(draw, dy=False):
+MASSLESS = [{"key": "hv", "how": "explicit", "comp": {}},                 # a photon: composition == {}
+            {"key": "site", "how": "explicit", "comp": {"0": 0}},           # composition == {0: 0}
+            {"key": "M", "how": "explicit", "comp": {"0": 0}, "charge_arg": True}]      # Substance(charge=0, composition={})
+
+
+def _draw_substances(draw, dy=False, massless_share=0):
     """Returns (kind, [ {key, how, comp, [charge_arg]} ]) with nullity >= 1 by construction.
 
-    dy: compositions and charges need not be integers (multiples of 1/8; decimal subscripts in formulas)."""
+    dy: compositions and charges need not be integers (multiples of 1/8; decimal subscripts in formulas).
+    massless_share: tenths of the cases with one or two explicitly composed substances that carry no element and no
+    charge (composition {} or {0: 0}); explicitly composed charged substances may be pure charge (an electron or hole
+    written Substance('S3', charge=-1, composition={}) or Substance('S3', composition={0: -1}))."""
+    kind, subs = _draw_substances_of_kind(draw, dy)
+    if massless_share and draw(st.integers(0, 9)) < massless_share:
+        n = draw(st.integers(1, 2))
+        for sp in draw(st.permutations(MASSLESS))[:n]:
+            subs.append({k: (dict(v) if isinstance(v, dict) else v) for k, v in sp.items()})
+    return kind, subs
+
+
+def _draw_substances_of_kind(draw, dy=False):
     kind = draw(st.sampled_from(["synthetic", "family", "family", "g1"]))
     subs = []
     if kind == "synthetic":
@@ -505,11 +556,18 @@ def _draw_substances(draw, dy=False):
                 c = draw(st.sampled_from(SYNTHETIC_COUNTS_DYADIC)) if dy else draw(st.integers(0, 3))
                 if c:
                     comp[str(z)] = c
+            pure_charge = False
             if not comp:
-                comp[str(elems[0])] = 1
+                # no element drawn: a pure charge carrier (electron / hole) in one third of the charged systems
+                pure_charge = charged and draw(st.integers(0, 2)) == 0
+                if not pure_charge:
+                    comp[str(elems[0])] = 1
             s = {"key": "S%d" % i, "how": "explicit", "comp": comp}
             if charged:
-                q = draw(st.sampled_from(SYNTHETIC_CHARGES_DYADIC if dy else SYNTHETIC_CHARGES))
+                if pure_charge:
+                    q = draw(st.sampled_from([-1, 1, -2, 2] + ([0.5, -0.5] if dy else [])))
+                else:
+                    q = draw(st.sampled_from(SYNTHETIC_CHARGES_DYADIC if dy else SYNTHETIC_CHARGES))
                 if q:
                     comp["0"] = q
                     s["charge_arg"] = draw(st.booleans())     # charge passed as Substance(charge=..)
@@ -522,6 +580,9 @@ def _draw_substances(draw, dy=False):
         for sp in perm:
             subs.append({"key": sp["body"] + charge_text(sp["q"]), "how": how, "comp": dict(sp["comp"]),
                          "body": sp["body"], "q": sp["q"]})
+            if how == "explicit" and sp["q"]:
+                # charge passed as Substance(charge=..): 'e-' then is Substance('e-', charge=-1, composition={})
+                subs[-1]["charge_arg"] = draw(st.booleans())
             if len(subs) >= 2 and _nullity(subs) >= want and len(subs) >= 3:
                 break
             if len(subs) >= 9 and _nullity(subs) >= 1:
@@ -622,6 +683,14 @@ def _balanced_reactions(draw, subs, max_rxn, dy=False):
             if j != i:
                 b = draw(st.sampled_from([1, -1, 2]))
                 vec = [x + b * y for x, y in zip(vec, basis[j])]
+        plain = list(vec)
+        for col, sp in enumerate(subs):
+            if not any(v for v in sp["comp"].values()):
+                # a substance without elements and charge takes part in any amount (emitted / absorbed photon, third body)
+                k = draw(st.integers(0, 5))
+                vec[col] += 1 if k == 4 else -1 if k == 5 else 0
+        if not any(vec):
+            vec = plain
         rx = _vector_to_rx(draw, vec, subs)
         if stoich_signature(rx) in seen:
             continue
@@ -749,7 +818,10 @@ def _break(draw, subs, rxns, dy=False):
     if mode == "coef":
         s = draw(st.sampled_from(subs))["key"]
         part = draw(st.sampled_from(["reac", "prod", "prod", "ireac", "iprod"]))
-        _bump_coef(rx, part, s, Fraction(1, draw(st.sampled_from([1, 2, 4, 8]))) if dy else 1)
+        d = Fraction(1, draw(st.sampled_from([1, 2, 4, 8]))) if dy else 1
+        _bump_coef(rx, part, s, d)
+        if not any(net(rx, k) for k in rx_keys(rx)):
+            _bump_coef(rx, part, s, d)      # a reaction must keep some effect (Reaction.check_any_effect)
         return "broken:coefficient", r
     # drop one species from one side (if that leaves the reaction with an effect), else bump a coefficient
     part = "prod" if rx["prod"] else "reac"
@@ -760,6 +832,8 @@ def _break(draw, subs, rxns, dy=False):
             return "broken:dropped_species", r
     s = draw(st.sampled_from(subs))["key"]
     _bump_coef(rx, "prod", s, 1)
+    if not any(net(rx, k) for k in rx_keys(rx)):
+        _bump_coef(rx, "prod", s, 1)
     return "broken:coefficient", r
 
 
@@ -774,16 +848,17 @@ def _rename(subs, rxns, old, new):
 
 
 @st.composite
-def composed_systems(draw, max_rxn=6, broken=None, kinetics=False, dyadic_share=0):
+def composed_systems(draw, max_rxn=6, broken=None, kinetics=False, dyadic_share=0, massless_share=0):
     """A system whose substances all carry compositions.
 
     broken: None -> drawn (about half of the cases get one broken reaction); False -> always balanced.
     kinetics: add rate constants, an initial state, output times and the knobs of the C05 dynamic checks.
     dyadic_share: tenths of the cases whose compositions, charges and stoichiometric coefficients need not be integers
     (multiples of 1/8 .. 1/64: exactly representable, so "balanced" still means an exactly zero float net).
+    massless_share: tenths of the cases with substances whose composition is {} or {0: 0} (see _draw_substances).
     """
     dy = dyadic_share > 0 and draw(st.integers(0, 9)) >= 10 - dyadic_share
-    kind, subs = _draw_substances(draw, dy)
+    kind, subs = _draw_substances(draw, dy, massless_share)
     rxns = _balanced_reactions(draw, subs, max_rxn, dy)
     # only substances that take part in some reaction stay (the ODE builders reject isolated substances);
     # the order of the remaining ones is permuted
